@@ -79,8 +79,8 @@ def _scalar_data(case: Dict[str, Any]) -> Dict[str, Any]:
     from ariadne_codegen.client_generators.scalars import ScalarData
 
     out = {}
-    for s, f in case["scalars"].items():
-        c = argwire.FAMILIES[f]["cfg"]
+    for s in case["scalars"]:
+        c = argwire.family_of(case, s)["cfg"]
         if c is not None:
             out[s] = ScalarData(type_=c["type"], serialize=c.get("serialize"), parse=c.get("parse"), import_=c.get("import"), graphql_name=s)
     return out
@@ -188,7 +188,7 @@ def gen_result(rng: random.Random, case: Dict[str, Any], depth: int = 0) -> Dict
     """a response object for the result type R of argwire.finish_case"""
 
     def raw(s: str) -> Any:
-        fam = argwire.FAMILIES[case["scalars"][s]]
+        fam = argwire.family_of(case, s)
         if fam["py"] == "datetime":
             return rng.choice(["2020-01-02T03:04:05", "2001-09-09T01:46:40"])
         if fam["py"] == "str":
@@ -274,6 +274,33 @@ def _plain(v: Any) -> Any:
     return {"$py": repr(v)}
 
 
+def plain_result(v: Any) -> Any:
+    """a returned result model as comparable data: fields by response key, scalar objects by class and raw"""
+    import datetime
+    import enum
+
+    from pydantic import BaseModel
+
+    if isinstance(v, BaseModel):
+        out = {}
+        for name, f in type(v).model_fields.items():
+            out[f.alias or name] = plain_result(getattr(v, name))
+        return out
+    if hasattr(v, "raw") and type(v).__module__.endswith(argwire.SCALAR_MODULE):
+        return {"$scalar": type(v).__name__, "raw": v.raw}
+    if isinstance(v, datetime.datetime):
+        return {"$datetime": v.isoformat()}
+    if isinstance(v, enum.Enum):
+        return v.value
+    if isinstance(v, (list, tuple)):
+        return [plain_result(x) for x in v]
+    if isinstance(v, dict):
+        return {str(k): plain_result(x) for k, x in v.items()}
+    if isinstance(v, (str, int, float, bool)) or v is None:
+        return v
+    return {"$py": repr(v)}
+
+
 def coerce_real(schema: Any, op_node: Any, inputs: Any) -> Dict[str, Any]:
     from graphql.execution.values import get_variable_values
 
@@ -328,6 +355,16 @@ def child_e2e(root: Path, case: Dict[str, Any]) -> Dict[str, Any]:
     except SyntaxError as e:
         out["client_syntax_error"] = str(e)
     out["methods"] = methods
+    out["result_modules"] = {}
+    for f in sorted(gen.dir.glob("*.py")):
+        if f.stem in ("__init__", "client", "input_types", "enums", "base_model", "exceptions", "fragments", argwire.SCALAR_MODULE) \
+                or f.stem.endswith("base_client"):
+            continue
+        try:
+            src = f.read_text()
+            out["result_modules"][f.stem] = {"classes": argwire.module_classes(src), "imports": argwire.module_imports(src)}
+        except (argwire.CanonError, SyntaxError) as e:
+            out["result_modules"][f.stem] = {"canon_error": str(e)}
     try:
         inputs_src = gen.read("input_types.py")
         out["inputs"] = argwire.module_classes(inputs_src)
@@ -400,10 +437,11 @@ def child_e2e(root: Path, case: Dict[str, Any]) -> Dict[str, Any]:
             if m["kind"] == "async":
                 import asyncio
 
-                asyncio.run(bound(**kwargs))
+                returned = asyncio.run(bound(**kwargs))
             else:
-                bound(**kwargs)
+                returned = bound(**kwargs)
             rec["outcome"] = "ok"
+            rec["returned"] = plain_result(returned)
         except BaseException as e:  # noqa: BLE001
             rec["outcome"] = "exception-after-send" if sent_log else "exception"
             rec["exception"] = type(e).__name__
@@ -469,8 +507,8 @@ def py_triggers(ir: Dict[str, Any], defs: List[Dict[str, Any]], case: Dict[str, 
     fns = {v["fn"] for _, v in calls}
 
     def serialized(d: Dict[str, Any]) -> bool:
-        fam = case["scalars"].get(argwire.base_of(d["type"]))
-        return fam is not None and argwire.FAMILIES[fam]["serialize"] is not None
+        b = argwire.base_of(d["type"])
+        return b in case["scalars"] and argwire.family_of(case, b)["serialize"] is not None
 
     return {
         "trigSelf": "self" in pys,
